@@ -26,7 +26,7 @@ def run(cx, chk):
     chk.rule("C20.R1w", "all-writers: used / key_costs are written only inside SampledLFU methods")
     chk.rule("C20.R2", "room_left returns max_cost.load() - (used + cost)")
     chk.rule("C20.R3", "update*/remove* report exactly whether the key was tracked (and its recorded cost)")
-    chk.rule("C20.R5", "fill_sample: unchanged when already long enough; otherwise only pushes (key, cost) pairs read from key_costs, re-testing len >= samples after every push")
+    chk.rule("C20.R5", "fill_sample: unchanged when already long enough; otherwise only pushes (key, cost) pairs read from key_costs (iterated without an item-dropping adapter: filter, filter_map, skip, skip_while, step_by), re-testing len >= samples after every push")
     chk.rule("C20.R7", "update_max_cost installs the given budget on every path (room_left is computed from it, also when it is below the recorded sum); nothing else writes max_cost")
     chk.rule("C20.R6", "clear empties the tracker unconditionally: every path clears key_costs and sets used to 0 (costs are signed, so `used == 0` does not mean nothing is tracked)")
     chk.rule("C20.R8", "constructors install what they are given: samples = the usize argument (one common constant when there is none), max_cost = the i64 argument, used = 0")
@@ -330,6 +330,9 @@ def siblings(cx, chk, cfg, F):
                 chk.violation("C20.R4", name, "%s does not delegate to %s with hash_key(key)" % (name, twin), f["span"]["file"], f["span"]["lo"], f["q"], None, cfg)
 
 
+DROPPING_ADAPTERS = ("filter", "filter_map", "skip", "skip_while", "step_by")
+
+
 def fill_sample(cx, chk, cfg, F):
     f = F.find(ADT + "::fill_sample")
     PAIRS = ("ref", ("L", 0, 2, ()))
@@ -366,6 +369,12 @@ def fill_sample(cx, chk, cfg, F):
                 for a, b, op in ((c[2], c[3], c[1]), (c[3], c[2], {"Lt": "Gt", "Gt": "Lt", "Le": "Ge", "Ge": "Le"}.get(c[1], c[1]))):
                     if a in lens and b == SAMPLES and op in ("Ge", "Lt"):
                         tests.append((i, lens[a], (op == "Ge") == t))
+        for e in evs:
+            # "until the sample size is reached": every tracked pair is a candidate. An adapter that drops items of the key_costs
+            # iterator (`take` only bounds the count and is fine) lets the sample stop short although tracked pairs remain.
+            if e["ev"] == "call" and (e["q"] or "").startswith("core::iter::Iterator::") and (e["q"] or "").split("::")[-1] in DROPPING_ADAPTERS:
+                bad("dropping-adapter|" + e["q"].split("::")[-1], "the key_costs iterator goes through Iterator::%s, which skips tracked (key, cost) pairs: the sample can end "
+                    "short of `samples` although tracked pairs remain" % e["q"].split("::")[-1], e.get("ln"))
         if not tests or tests[0][0] > (muts[0][0] if muts else len(evs)):
             bad("no-initial-test", "the input is extended without first testing pairs.len() >= samples")
             continue
